@@ -24,5 +24,15 @@ Definition x_py_kind (t : list Z) : Z :=
   else if n_matches x_py_imag w then 3 else 0.
 Definition x_strbegin (t : list Z) : bool * bool :=
   let w := map EvChar t in (n_matches x_lex_strbegin w, n_matches x_py_strbegin w).
+Definition x_lex_text : ere := Eval vm_compute in lex_text.
+Definition x_lex_number (fixed : bool) : ere := EAlt x_lex_int (EAlt x_lex_float (if fixed then x_lex_imag_new else x_lex_imag_old)).
+(* longest-match scan of a run of n dots with the evaluated rules (same function as M_Lexicon.scan_dots) *)
+Fixpoint x_scan_dots (fuel : nat) (fixed : bool) (n : nat) : list nat :=
+  match fuel, n with
+  | O, _ | _, O => []
+  | S f, _ => let k := longest x_lex_text (dots n) in
+              if (0 <? longest (x_lex_number fixed) (dots n))%nat then [] else
+              match k with O => [] | _ => k :: x_scan_dots f fixed (n - k) end
+  end.
 Extraction "../ocaml/gen/m_lexicon.ml" ex_keep x_token_kind x_py_kind x_strbegin decode_int_token
-  int_token_outcome int_token_value.
+  int_token_outcome int_token_value x_scan_dots dot_tokens import_level.
